@@ -10,6 +10,8 @@ from vlib.jsonvals import canon
 from vlib.readback import declared_names, readback
 from vlib.values_for import instance_of, perturb
 
+from statham.schema.constants import NotPassed  # (after vlib: vlib.repo decides which tree `statham` is)
+
 PID = "C04"
 RULE = (
     "case = container-biased schema from the Draft-6 grammar (parsed) or DSL recipe with renamed "
@@ -23,6 +25,9 @@ RULE = (
 )
 RULE += (
     ' Parsed-mode schemas go through the documented loader a quarter of the time.'
+)
+RULE += (
+    ' Round 9: every JSON name declared under `properties` must be the source of exactly one property of the parsed element (root level); a directed family writes an object schema with renamed properties so that the parser goes over it more than once (one-element type list, allOf / anyOf / not next to `properties`); the inheritance family (base + subclass) joined the recipes.'
 )
 ASSUMPTIONS = [
     "for untyped (dict) results the governing element is not known to the walker: a member may be found under its JSON name or under the Python name of any property with that JSON name in the tree",
@@ -57,6 +62,29 @@ def cases(draw):
         schema = draw(sg.schemas(SCFG))
         case = {"mode": "parsed", "schema": schema, "pipeline": draw(st.sampled_from(observe.PIPELINES))}
         names = cc.renamed_pynames_schema(schema)
+    elif draw(st.integers(0, 9)) == 0:
+        # an object schema with renamed property names, SPELLED so that the parser goes over it more than once (a type
+        # list, composition keywords next to `properties`): the same schema as its plain spelling
+        names = draw(st.lists(st.sampled_from(["a-b", "class", "1st", "$id", "x y", "plain"]), min_size=1, max_size=3,
+                              unique=True))
+        obj = {"type": "object", "title": "Line",
+               "properties": {n: {"type": draw(st.sampled_from(["number", "string", "integer"]))} for n in names}}
+        spelling = draw(st.sampled_from(["plain", "type-list", "type-list", "allOf-sibling", "anyOf-sibling", "not-sibling"]))
+        if spelling == "type-list":
+            obj["type"] = ["object"]
+        elif spelling == "allOf-sibling":
+            obj["allOf"] = [{}]
+        elif spelling == "anyOf-sibling":
+            obj["anyOf"] = [{"minProperties": 0}, {"type": "null"}]
+        elif spelling == "not-sibling":
+            obj["not"] = {"type": "null"}
+        sample = {"number": 1, "string": "s", "integer": 2}
+        full = {n: sample[obj["properties"][n]["type"]] for n in names}
+        return {"mode": "parsed", "schema": obj, "values": [full, {names[0]: full[names[0]]}, {}, {**full, "zz": None}],
+                "excluded": 0, "pipeline": draw(st.sampled_from(observe.PIPELINES)), "spelling": spelling}
+    elif draw(st.integers(0, 7)) == 0:
+        recipe, fam_values = draw(R.inheritance_family())
+        return {"mode": "dsl", "recipe": recipe, "values": fam_values, "excluded": 0}
     else:
         recipe = draw(R.recipes(RCFG))
         schema = R.to_schema(recipe)
@@ -169,6 +197,15 @@ def number_position_predicate(case, stats):
     return fails
 
 
+def _image(name):
+    from statham.schema.parser import _parse_attribute_name
+
+    try:
+        return _parse_attribute_name(name)
+    except Exception:  # noqa: BLE001
+        return name
+
+
 def predicate(case, stats):
     if case.get("mode") == "number-positions":
         return number_position_predicate(case, stats)
@@ -180,6 +217,19 @@ def predicate(case, stats):
     by_source, pynames = declared_names(element)
     fails = []
     key = case.get("schema", case.get("recipe"))
+    if case["mode"] == "parsed" and isinstance(case["schema"], dict) and isinstance(case["schema"].get("properties"), dict) \
+            and not isinstance(getattr(element, "properties", None), (NotPassed, type(None))):
+        # which members are DECLARED is what the schema says (the walker otherwise takes the element's word for it):
+        # every JSON name under `properties` must still be known to the element under that name
+        sources = {(p.source if p.source is not None else n) for n, p in element.properties.items()}
+        lost = [n for n in case["schema"]["properties"] if n not in sources]
+        if lost and not any(findings.classify(PID, case, {"sub": "readback", "value": {n: None}}) for n in lost):
+            images = {}
+            for n in case["schema"]["properties"]:
+                images.setdefault(_image(n), []).append(n)
+            if not any(len(v) > 1 for v in images.values()):  # (sibling names with one image: C12's open finding)
+                fails.append({"sub": "declared", "kind": "declared-json-name-unknown-to-the-element", "lost": lost,
+                              "sources": sorted(map(str, sources))})
     for value in case["values"]:
         got = observe.verdict(element, value)
         if got[0] != "ok":
